@@ -1210,6 +1210,7 @@ func main() {
 	reqs := flag.Int("reqs", 24, "requests per random run")
 	seed := flag.Int64("seed", 1, "seed")
 	plat := flag.String("platform", "", "comma separated type:ngpu list of real platforms to probe, e.g. r9nano:2,mi300a:4")
+	dist := flag.String("distrun", "", "JSON file with driver-level programs of the family 'remote-written distributed buffer'")
 	sys := flag.String("sysrun", "", "comma separated workload:gputype:ngpu:size list of real multi-GPU timing runs to listen to")
 	flag.Parse()
 
@@ -1219,7 +1220,7 @@ func main() {
 	}
 	bw := bufio.NewWriter(f)
 	rec := ab.NewRecorder(bw)
-	if *sys != "" {
+	if *sys != "" || *dist != "" {
 		// the engine of a whole-system run lives in the driver's goroutine, where a panic of the simulator cannot be
 		// recovered: every line is written through, so that the trace up to the crash survives
 		rec = ab.NewRecorder(f)
@@ -1279,6 +1280,9 @@ func main() {
 			platform(rec, parts[0], n, rng, stats)
 			traces++
 		}
+	}
+	if *dist != "" {
+		traces += distrun(rec, *dist, stats)
 	}
 	if *sys != "" {
 		for _, item := range strings.Split(*sys, ",") {
